@@ -418,6 +418,41 @@ for _form in ("candle", "candles", "dict", "Dict", "dicts", "list", "lists"):
     HEX_TASKS[CM + "append#" + _form] = dict(qualname=CM + "append", builder=append_builder(_form), contract=APPEND)
 
 
+# on the base timeframe a new candle is always a NEW last candle, whatever its timestamp (also equal to the newest one):
+# candles already in the list are final (C02) and batch == incremental (C01)
+def append_nonempty_builder(ex, st):
+    import z3
+    from hexvc.objects import instantiate
+    from hexvc.state import ListP, ObjP
+    from hexvc.timevals import DateTimeV
+    from hexvc.values import SFloat, SNum
+    src = ex.ctx.source
+    mcls = src.module("hexital.core.candle_manager").classes["CandleManager"]
+    ccls = src.module("hexital.core.candle").classes["Candle"]
+    src.resolve_class_bases(mcls)
+    src.resolve_class_bases(ccls)
+
+    def mk(tag, s):
+        vals_ = {f: SFloat(z3.Real(f"{tag}_{f}")) for f in ("open", "high", "low", "close")}
+        vals_["volume"] = SNum(z3.Real(f"{tag}_volume"), z3.BoolVal(False))
+        vals_["timestamp"] = DateTimeV(z3.Int(f"{tag}_ts"))
+        return list(instantiate(ex, ccls, [], vals_, s, None))[0]
+
+    st, old = mk("old", st)
+    st, new = mk("new", st)
+    st.assume(z3.Int("old_ts") <= z3.Int("new_ts"))  # non-decreasing stream, equal timestamps included
+    lst = st.alloc(ListP([old]))
+    m = st.alloc(ObjP(mcls, {"candles": lst, "timeframe": None, "timeframe_fill": False, "candles_lifespan": None, "candlestick_type": None}))
+    yield st, [m, new], {}, {"self": m, "candles": new, "old": old, "new": new}
+
+
+HEX_TASKS[CM + "append#to-a-non-empty-list"] = dict(
+    qualname=CM + "append", builder=append_nonempty_builder,
+    contract=Contract(CM + "append", ensures={
+        "appended-as-a-new-last-candle": "LenOf(self.candles) == 2 and self.candles[0] is old and self.candles[1] is new",
+    }, result_type="None", props=["C02", "C01", "C19"], use_at_calls=False, pure_args=["candles", "old"]))
+
+
 # a manager of a derived timeframe keeps its own deep copies: nothing it later merges, converts or writes readings on
 # is shared with the caller's candles (which the default manager of the same Hexital holds)
 def _noop(ex, st, args, kwargs, node):
